@@ -19,7 +19,7 @@ MODES = ["own", "alt.Recompose", "oj.Unmarshal", "sen.Unmarshal"]
 # kinds of the C15 menu that can be recomposed at all (exported fields, no custom encoders, no time: see DESIGN-notes/C16.md)
 RT_KINDS = {"bool", "int", "uint8", "float", "string", "*int", "*S", "[]int", "[]uint8", "[]S", "[]*S", "[2]int", "map[string]int",
             "map[string]string", "map[string]*S", "map[string]M", "map[string]*M", "[]M", "[]*M", "any", "S", "anon", "E1", "*E1",
-            "E3", "E4", "Tree", "List", "Node", "*Node", "[]Node", "map[string]Tree", "P", "Ma", "N", "*N", "[]N", "map[string]N", "IS1", "IS64", "IP1", "*P2", "*Q2", "R1", "[4]uint8", "BA4", "[2]S", "map[string]S", "float32", "[]float32", "[]anyP", "L1", "Str1", "Str2", "Col1", "Col2", "Col3", "T1", "T2", "*T2", "U", "V", "W", "MyInt"}
+            "E3", "E4", "Tree", "List", "Node", "*Node", "[]Node", "map[string]Tree", "P", "Ma", "EN", "*EN", "EA", "N", "*N", "[]N", "map[string]N", "IS1", "IS64", "IP1", "*P2", "*Q2", "R1", "[4]uint8", "BA4", "[2]S", "map[string]S", "float32", "[]float32", "[]anyP", "L1", "Str1", "Str2", "Col1", "Col2", "Col3", "T1", "T2", "*T2", "U", "V", "W", "MyInt"}
 NAPI = 16   # round-trip routes: 3 routes x 3 key naming modes x value / pointer source (harness rtAPIs)
 
 
@@ -83,6 +83,10 @@ def judge(ctx, cases):
             cls = b.get("t", "-")
             if b["kind"] == "hang":
                 locus = "hang|" + culprit
+                if cls == "embedded-pointer-cycle" and "stack" in (b["m"] or ""):
+                    # as-implemented reading (C15 F19): the encoders overflow the stack while building the field plan of a
+                    # struct that embeds a pointer to itself
+                    api, locus = "(round trip)", "as-implemented|hang|embedded-pointer-cycle"
             if b["kind"] == "not-inverse" and cls not in ("-", "shape") and not (cls == "named-scalar" and "(ptr)" in api):
                 # classified by the trace specification (TraceRecompose.Class) as an as-implemented reading: keyed by root cause
                 api, locus = "(round trip)", "as-implemented|" + cls
@@ -131,7 +135,7 @@ def main(ctx):
             if k not in sseen:
                 sseen.add(k)
                 cases.append(c)
-    for top in ("S", "T1", "T2", "U", "V", "W", "Emb", "EmbPtr", "Str1", "Str2", "Col1", "Col2", "Col3", "L1", "[]anyP", "N", "IS1", "IS64", "IP1", "Tree", "List", "Node", "[]Node", "P", "Ma"):
+    for top in ("S", "T1", "T2", "U", "V", "W", "Emb", "EmbPtr", "Str1", "Str2", "Col1", "Col2", "Col3", "L1", "[]anyP", "N", "IS1", "IS64", "IP1", "Tree", "List", "Node", "[]Node", "P", "Ma", "EN", "EA"):
         for v in ("z", "n", "e"):
             if (top, v) != ("W", "e"):
                 cases.append({"f": [], "top": top, "v": v})
